@@ -59,6 +59,13 @@ func (t *Teamserver) ListenerStart(ListenerType int, info any) error {
 
 		HTTPConfig.Start()
 
+		// Start() announces and stores the listener and creates its server only when it could set
+		// the listener up (an HTTPS listener needs its certificate files written): a listener that
+		// did not get that far is not kept, otherwise it holds the name without ever being stored
+		if HTTPConfig.Server == nil {
+			return errors.New("failed to start listener")
+		}
+
 		ListenerConfig = HTTPConfig
 		ListenerName = config.Name
 
